@@ -72,7 +72,8 @@ class LineScheduler(object):
 
     def tracer(self, frame, event, arg):
         co = frame.f_code
-        if event == 'call' and (co.co_filename.rsplit('/', 1)[-1], co.co_name) in self.TARGETS and '/stdnum/' in co.co_filename:
+        if event == 'call' and '/stdnum/' in co.co_filename and ((co.co_filename.rsplit('/', 1)[-1], co.co_name) in self.TARGETS
+                                                                  or co.co_filename.endswith('/stdnum/util.py')):
             return self.local
         return None
 
@@ -178,7 +179,8 @@ def main():
                 if ls:
                     sys.settrace(ls.tracer)
                 barrier.wait()
-                for i, c in enumerate(job['calls'], 1):
+                mine = job['per_thread'][names.index(name) % len(job['per_thread'])] if job.get('per_thread') else job['calls']
+                for i, c in enumerate(mine, 1):
                     val, r = do_call(c)
                     res[(name, i)] = (c, r)
             finally:
